@@ -81,6 +81,12 @@ def TableOK (tab : Table) : Prop :=
   ∀ pi ∈ tab, check pi.strict pi.prog pi.cert pi.init = true ∧ 0 ≤ pi.init.1 ∧ pi.init.2 = 0 ∧
     (∀ pc, tab[pi.child]? = some pc → pc.init = (1, 0) ∨ ¬ ∃ b ∈ pi.prog, Ev.spawn ∈ b.evs)
 
+/-- decidable version of `TableOK` (evaluated by `decide` on the regenerated table) -/
+def tableOkB (tab : Table) : Bool :=
+  tab.all fun pi =>
+    check pi.strict pi.prog pi.cert pi.init && decide (0 ≤ pi.init.1) && decide (pi.init.2 = 0) &&
+      ((tab[pi.child]?.map (·.init) == some (1, 0)) || !(pi.prog.any fun b => b.evs.contains .spawn))
+
 def Inv (tab : Table) (K : Int) (s : Sys) : Prop :=
   s.free + heldSum s.threads = K ∧ 0 ≤ s.free ∧ ∀ t ∈ s.threads, ThreadOK tab t
 
